@@ -56,6 +56,11 @@ func vSvcScenarios() []vSvcScenario {
 		{"closed-without-manifest", []string{"reserve", "close"}},
 		{"deploy-fails-then-closed", []string{"reserve", "manifest", "wait-deploy", "D-", "settle", "close"}},
 		{"update-fails-then-closed", []string{"reserve", "manifest", "wait-deploy", "D+", "update", "wait-deploy", "D-", "settle", "close"}},
+		// a manifest for the lease arrives after the lease was closed: while the
+		// teardown is in flight, and while the last deploy is still in flight
+		{"manifest-during-teardown", []string{"reserve", "manifest", "wait-deploy", "D+", "close", "wait-teardown", "update", "pause", "T+"}},
+		{"manifest-after-close-during-deploy", []string{"reserve", "manifest", "wait-deploy", "close", "update", "pause", "D+", "wait-teardown", "update", "pause", "T+"}},
+		{"manifest-during-failing-teardown", []string{"reserve", "manifest", "wait-deploy", "D+", "close", "wait-teardown", "update", "pause", "T1"}},
 	}
 }
 
@@ -116,6 +121,9 @@ func vRunSvcScenario(sc vSvcScenario) (*vSvcRun, []vDMViolation) {
 			if st == "update" {
 				time.Sleep(2 * time.Millisecond) // let the service hand it to the manager
 			}
+		case "pause":
+			// (gives a wrongly started operation time to show up; nothing is judged by time)
+			time.Sleep(5 * time.Millisecond)
 		case "wait-deploy":
 			if g.WaitPending(vKDeploy, vSvcTimeout) == nil {
 				note("no deploy call appeared")
@@ -222,6 +230,17 @@ func vRunSvcScenario(sc vSvcScenario) (*vSvcRun, []vDMViolation) {
 		for _, d := range deploys {
 			if d.Start > closedAt && len(run.Notes) == 0 && sc.Name != "closed-during-deploy" {
 				bad("no-deploy-after-teardown-requested", fmt.Sprintf("a deploy started at %d after the lease closed at %d", d.Start, closedAt))
+			}
+		}
+		// cluster operations of one lease never overlap
+		var ops []vs.GateCallView
+		ops = append(ops, deploys...)
+		ops = append(ops, teardowns...)
+		for i := range ops {
+			for j := range ops {
+				if i < j && ops[i].Start < ops[j].End && ops[j].Start < ops[i].End && ops[i].End != 0 && ops[j].End != 0 {
+					bad("cluster-operations-never-overlap", fmt.Sprintf("%s@%d-%d overlaps %s@%d-%d", ops[i].Kind, ops[i].Start, ops[i].End, ops[j].Kind, ops[j].Start, ops[j].End))
+				}
 			}
 		}
 		if run.Pending+run.Active != 0 {
